@@ -359,4 +359,116 @@ theorem parse_print (c : C) (hl : Legal c) (h3 : lvl c ≤ 3) (fuel : Nat)
     (by simp [startsAtomic]) (by simp [noOp])
   simp only [parseTop, toksTop, r_block f dummy _ c dummy [] e]
 
+/-! ### Spans: a node's span is the extent of its printed tokens -/
+
+theorem firstReal_append_of_some (xs ys : List Tok) (t : Tok) (h : firstReal xs = some t) :
+    firstReal (xs ++ ys) = some t := by
+  induction xs with
+  | nil => simp [firstReal] at h
+  | cons x xs ih =>
+    simp only [List.cons_append, firstReal] at h ⊢
+    split
+    · simp_all
+    · simp_all
+
+theorem lastReal_append_of_some (xs ys : List Tok) (t : Tok) (h : lastReal ys = some t) :
+    lastReal (xs ++ ys) = some t := by
+  induction xs with
+  | nil => simpa using h
+  | cons x xs ih => simp only [List.cons_append, lastReal, ih]
+
+theorem first_toks (c : C) : ∃ t, firstReal (toks c) = some t ∧ t.sp.s = (span c).s := by
+  induction c with
+  | ident | int | str | unit | paren | lam | ite | letIn =>
+    exact ⟨_, by simp [toks, firstReal, isReal], by simp [span]⟩
+  | comma a _ b iha _ =>
+    obtain ⟨t, h, e⟩ := iha
+    exact ⟨t, by simp only [toks]; exact firstReal_append_of_some _ _ _ h, by simp [span, e]⟩
+  | app f a ihf _ =>
+    obtain ⟨t, h, e⟩ := ihf
+    exact ⟨t, by simp only [toks]; exact firstReal_append_of_some _ _ _ h, by simp [span, e]⟩
+  | binop l _ _ r ihl _ =>
+    obtain ⟨t, h, e⟩ := ihl
+    exact ⟨t, by simp only [toks]; exact firstReal_append_of_some _ _ _ h, by simp [span, e]⟩
+
+theorem lastReal_snoc_cb (xs : List Tok) (t : Tok) (h : lastReal xs = some t) :
+    lastReal (xs ++ [⟨.cb, dummy⟩]) = some t := by
+  induction xs generalizing t with
+  | nil => simp [lastReal] at h
+  | cons x xs ih =>
+    simp only [List.cons_append, lastReal] at h ⊢
+    cases hx : lastReal xs with
+    | some y => simp [ih y hx, hx] at h ⊢; exact h
+    | none =>
+      have : lastReal (xs ++ [⟨.cb, dummy⟩]) = none := by
+        clear ih h
+        induction xs with
+        | nil => simp [lastReal, isReal]
+        | cons z zs ihz =>
+          simp only [lastReal] at hx
+          cases hz : lastReal zs with
+          | some w => simp [hz] at hx
+          | none =>
+            simp only [hz] at hx
+            simp only [List.cons_append, lastReal, ihz hz]
+            exact hx
+      simp [this, hx] at h ⊢; exact h
+
+theorem last_toks (c : C) : ∃ t, lastReal (toks c) = some t ∧ t.sp.e = (span c).e := by
+  induction c with
+  | ident | int | str | unit => exact ⟨_, by simp [toks, lastReal, isReal], by simp [span]⟩
+  | paren l b r _ =>
+    refine ⟨⟨.rp, r⟩, ?_, by simp [span]⟩
+    have : toks (.paren l b r) = (⟨.lp, l⟩ :: toks b) ++ [⟨.rp, r⟩] := by simp [toks]
+    rw [this]; exact lastReal_append_of_some _ _ _ (by simp [lastReal, isReal])
+  | comma a cs b _ ihb =>
+    obtain ⟨t, h, e⟩ := ihb
+    refine ⟨t, ?_, by simp [span, e]⟩
+    have : toks (.comma a cs b) = (toks a ++ [⟨.comma, cs⟩]) ++ toks b := by simp [toks]
+    rw [this]; exact lastReal_append_of_some _ _ _ h
+  | app f a _ iha =>
+    obtain ⟨t, h, e⟩ := iha
+    exact ⟨t, by simp only [toks]; exact lastReal_append_of_some _ _ _ h, by simp [span, e]⟩
+  | binop l o os r _ ihr =>
+    obtain ⟨t, h, e⟩ := ihr
+    refine ⟨t, ?_, by simp [span, e]⟩
+    have : toks (.binop l o os r) = (toks l ++ [⟨.op o, os⟩]) ++ toks r := by simp [toks]
+    rw [this]; exact lastReal_append_of_some _ _ _ h
+  | lam bs args ar body ih =>
+    obtain ⟨t, h, e⟩ := ih
+    refine ⟨t, ?_, by simp [span, e]⟩
+    have : toks (.lam bs args ar body) =
+        (⟨.lam, bs⟩ :: (argToks args ++ [⟨.arrow, ar⟩, ⟨.ob, dummy⟩])) ++ (toks body ++ [⟨.cb, dummy⟩]) := by
+      simp [toks]
+    rw [this]; exact lastReal_append_of_some _ _ _ (lastReal_snoc_cb _ _ h)
+  | ite i c t a e b _ _ ihb =>
+    obtain ⟨tb, h, eb⟩ := ihb
+    refine ⟨tb, ?_, by simp [span, eb]⟩
+    by_cases hi : isIte b = true
+    · have : toks (.ite i c t a e b) =
+          (⟨.kIf, i⟩ :: (toks c ++ ⟨.kThen, t⟩ :: ⟨.ob, dummy⟩ :: (toks a ++ [⟨.cb, dummy⟩, ⟨.kElse, e⟩]))) ++ toks b := by
+        simp [toks, hi]
+      rw [this]; exact lastReal_append_of_some _ _ _ h
+    · have hi' : isIte b = false := by simpa using hi
+      have : toks (.ite i c t a e b) =
+          (⟨.kIf, i⟩ :: (toks c ++ ⟨.kThen, t⟩ :: ⟨.ob, dummy⟩ :: (toks a ++ [⟨.cb, dummy⟩, ⟨.kElse, e⟩, ⟨.ob, dummy⟩]))) ++
+            (toks b ++ [⟨.cb, dummy⟩]) := by
+        simp [toks, hi']
+      rw [this]; exact lastReal_append_of_some _ _ _ (lastReal_snoc_cb _ _ h)
+  | letIn l x args q rhs n body _ ihb =>
+    obtain ⟨tb, h, eb⟩ := ihb
+    refine ⟨tb, ?_, by simp [span, eb]⟩
+    have : toks (.letIn l x args q rhs n body) =
+        (⟨.kLet, l⟩ :: ⟨.ident x.1, x.2⟩ :: (argToks args ++ ⟨.eq, q⟩ :: ⟨.ob, dummy⟩ ::
+          (toks rhs ++ [⟨.cb, dummy⟩, ⟨.kIn, n⟩, ⟨.ob, dummy⟩]))) ++ (toks body ++ [⟨.cb, dummy⟩]) := by
+      simp [toks]
+    rw [this]; exact lastReal_append_of_some _ _ _ (lastReal_snoc_cb _ _ h)
+
+/-- The span the parser reports for a node is exactly the extent of the node's printed tokens
+    (hidden block tokens excluded). -/
+theorem spans_delimit (c : C) : extent (toks c) = some (span c) := by
+  obtain ⟨a, ha, ea⟩ := first_toks c
+  obtain ⟨b, hb, eb⟩ := last_toks c
+  simp [extent, ha, hb, ea, eb]
+
 end GluonModel.ExprGrammar.Proofs
